@@ -668,6 +668,15 @@ class V:
     def __or__(s, o): return V(s.v | V._u(o))
     def __invert__(s): return V(~s.v)
 
+    def any(s, *a, **k):
+        # over the whole request array: true at the inspected element, or at some other element (unconstrained)
+        _ANY_COUNTER[0] += 1
+        return s.v | symx.SymBool(z3.Bool("any_other_%d" % _ANY_COUNTER[0]))
+
+    def all(s, *a, **k):
+        _ANY_COUNTER[0] += 1
+        return s.v & symx.SymBool(z3.Bool("all_other_%d" % _ANY_COUNTER[0]))
+
     def round(s, decimals=0, out=None):
         from vlib import symnp
         return V(symnp.round_(s.v))
@@ -684,6 +693,9 @@ class V:
 class Sel:
     def __init__(self, v, cond):
         self.v, self.cond = v, cond
+
+
+_ANY_COUNTER = [0]
 
 
 class _NPShim:
@@ -773,11 +785,27 @@ def chunk_case(gh, gw, th, tw):
                               lat < _rv(PI_F) / 2 - z3.ToReal(gy) * hgt - EPS, lat > _rv(PI_F) / 2 - z3.ToReal(gy + 1) * hgt + EPS))
             calls = []
 
+            class Buf:
+                """Content of the 256x256 maskable buffer AT THE INSPECTED PIXEL (bi, bj): (defined?, source row, source col).
+                A new buffer is uninitialised (np.empty): unconstrained."""
+
+                def __init__(self):
+                    self.defined = z3.Bool("buf0_defined")
+                    self.row, self.col = z3.Int("buf0_row"), z3.Int("buf0_col")
+
+                def clear(self):
+                    self.defined = z3.BoolVal(False)
+
+                def asarray(self):
+                    return ("BUFFER", self.defined, self.row, self.col)
+
+                _as_writeable_array = asarray
+
             class FakeImg:
                 class mode:
                     @staticmethod
                     def make_maskable_buffer(hh, ww):
-                        return type("Buf", (), {"asarray": lambda self: "BUFFER"})()
+                        return Buf()
 
                 @classmethod
                 def from_array(cls, data):
@@ -785,27 +813,36 @@ def chunk_case(gh, gw, th, tw):
 
                 def fill_into_maskable_buffer(self, buffer, iy, ix, biy, bix):
                     calls.append((iy, ix, biy, bix))
+                    if not all(isinstance(c, Sel) for c in (iy, ix, biy, bix)):
+                        raise HarnessError("chunk sampler fills its buffer with something other than mask-selected index arrays")
+                    if not all(z3.eq(c.cond.t, iy.cond.t) for c in (ix, biy, bix)):
+                        raise HarnessError("chunk sampler selects its index arrays with different masks")
+                    # fill = everything undefined, then exactly the addressed points defined (C15): at the inspected pixel
+                    hit = z3.And(iy.cond.t, symx.I(biy.v) == bi, symx.I(bix.v) == bj)
+                    buffer.defined = hit
+                    buffer.row, buffer.col = symx.I(iy.v), symx.I(ix.v)
 
             saved_img, saved_np = ti.Image, tsm.np
             ti.Image = FakeImg
             tsm.np = _NPShim(symx.SymInt(bi), symx.SymInt(bj))
+            # a HISTORY of two requests through the same sampler closure (it keeps one buffer): an arbitrary earlier tile,
+            # then the inspected one
+            lon_p, lat_p = z3.Reals("prev_lon prev_lat")
+            ctx.assume(z3.And(lat_p >= -_rv(PI_F) / 2, lat_p <= _rv(PI_F) / 2, lon_p >= -4 * _rv(TWOPI_F), lon_p <= 4 * _rv(TWOPI_F)))
             try:
                 fn = smp.sampler(k)
+                out_p = fn(V(SymReal(lon_p)), V(SymReal(lat_p)))
                 out = fn(V(SymReal(lon)), V(SymReal(lat)))
             finally:
                 ti.Image, tsm.np = saved_img, saved_np
-            if out != "BUFFER" or len(calls) != 1 or not all(isinstance(c, Sel) for c in calls[0]):
-                raise HarnessError("chunk sampler does not fill its buffer through one masked fill_into_maskable_buffer call")
-            iy, ix, biy, bix = calls[0]
-            cond = iy.cond
-            if not all(z3.eq(c.cond.t, cond.t) for c in calls[0]):
-                raise HarnessError("chunk sampler selects its index arrays with different masks")
+            if not (isinstance(out, tuple) and out and out[0] == "BUFFER"):
+                raise HarnessError("chunk sampler does not return its maskable buffer's array")
+            _tag, defined, row, col = out
             inchunk = z3.And(gx >= cx, gx < cx + cw, gy >= cy, gy < cy + ch)
-            claim = z3.And(cond.t == inchunk,
-                           z3.Implies(cond.t, z3.And(symx.I(ix.v) == gx - cx, symx.I(iy.v) == gy - cy, symx.I(biy.v) == bi, symx.I(bix.v) == bj)))
+            claim = z3.And(defined == inchunk, z3.Implies(inchunk, z3.And(col == gx - cx, row == gy - cy)))
             r, mdl = ctx.prove(claim)
             rr, _m = ctx.reachable(inchunk)
-            return r, rr, (None if mdl is None else dict(lon=_fval(mdl, lon), lat=_fval(mdl, lat), cell=(_fval(mdl, gx), _fval(mdl, gy))))
+            return r, rr, (None if mdl is None else dict(lon=_fval(mdl, lon), lat=_fval(mdl, lat), cell=(_fval(mdl, gx), _fval(mdl, gy)), prev=(_fval(mdl, z3.Real("prev_lon")), _fval(mdl, z3.Real("prev_lat")))))
 
         reach = False
         for ctx, out in symx.explore(h, stats=res, max_paths=64, timeout_ms=60000):
@@ -824,7 +861,7 @@ def chunk_case(gh, gw, th, tw):
     return nq, problems
 
 
-def chunk_point_replay(gh, gw, th, tw, k, lon, lat):
+def chunk_point_replay(gh, gw, th, tw, k, lon, lat, prev=None):
     """Real sampler closure (real numpy, real Image) on a chunk whose pixels carry their global index: the value
     returned for (lon, lat) must be the map cell containing the point iff that cell is in the chunk.  -> True if wrong."""
     img = FakeChunked(gh, gw, th, tw)
@@ -833,6 +870,9 @@ def chunk_point_replay(gh, gw, th, tw, k, lon, lat):
     img.chunk_data = lambda ichunk: glob[cy:cy + ch, cx:cx + cw].copy()
     smp = tsm.ChunkedPlateCarreeSampler(img, planetary=True)
     fn = smp.sampler(k)
+    if prev is not None:
+        # an earlier request through the same closure (it keeps one buffer between calls)
+        fn(np.full((256, 256), float(prev[0])), np.full((256, 256), float(prev[1])))
     lons = np.full((256, 256), float(lon))
     lats = np.full((256, 256), float(lat))
     out = fn(lons, lats)
@@ -864,11 +904,11 @@ def job_chunks(run, grids):
         nm = "chunks%r" % (g,)
         if kind == "chunk-sampler":
             pt = info["point"]
-            wrong = chunk_point_replay(*g, info["chunk"], pt["lon"], pt["lat"])
+            wrong = chunk_point_replay(*g, info["chunk"], pt["lon"], pt["lat"], pt.get("prev"))
             if wrong:
                 run.violation(nm, "samplers.py:ChunkedPlateCarreeSampler:wrong-cell", "chunk %d %r of the %dx%d map (tiles %dx%d): the point lon=%r lat=%r in map cell %r is %s" % (
-                    info["chunk"], info["spec"], g[1], g[0], g[3], g[2], pt["lon"], pt["lat"], pt["cell"], "not sampled from that cell / not left to the chunk that owns it"),
-                              "import sys\nsys.path.insert(0, %r)\nimport props.C07 as P\nsys.exit(1 if P.chunk_point_replay(%r, %r, %r, %r, %r, %r, %r) else 0)\n" % (core.VERIF, g[0], g[1], g[2], g[3], info["chunk"], pt["lon"], pt["lat"]),
+                    info["chunk"], info["spec"], g[1], g[0], g[3], g[2], pt["lon"], pt["lat"], pt["cell"], "not sampled from that cell / not left to the chunk that owns it (after an earlier request %r through the same sampler closure)" % (pt.get("prev"),)),
+                              "import sys\nsys.path.insert(0, %r)\nimport props.C07 as P\nsys.exit(1 if P.chunk_point_replay(%r, %r, %r, %r, %r, %r, %r, %r) else 0)\n" % (core.VERIF, g[0], g[1], g[2], g[3], info["chunk"], pt["lon"], pt["lat"], pt.get("prev")),
                               "E2:symx")
             else:
                 run.error(nm, "chunk sampler counterexample %r does not reproduce on the real closure" % (info,))
